@@ -144,8 +144,15 @@ class PoolRun(object):
         table = STATEMENTS.get(meth)
         tid = id(frame)
         if table is None or text not in table:
-            self.align_error = "unknown statement in ThreadPool.%s line %d: %r" % (meth, lineno, text)
-            raise AlignmentError(self.align_error)
+            if not text or text.startswith(('"' * 3, "'" * 3, "#", ":param", ":return", ":raise")):
+                return None
+            # the structure of the code changed: the correspondence fails closed (the model cannot be
+            # compared), but the run goes on -- the unknown line is a yield point of its own -- so that the
+            # property oracle still judges what the code really does under this schedule
+            if self.align_error is None:
+                self.align_error = "unknown statement in ThreadPool.%s line %d: %r" % (meth, lineno, text)
+            self._last_group[tid] = None
+            return "L?%s:%d" % (meth, lineno)
         lab = table[text]
         if isinstance(lab, list):
             k = self._occ.get((meth, lineno), 0)
@@ -205,7 +212,7 @@ class PoolRun(object):
             "done": [bool(t["future"]._done_event._EventData__event._flag) for t in self.tasks],
         }
 
-    def _on_step(self, ctl, cthread, label, fired):
+    def _scan_queue(self):
         p = self.pool
         # new queue items get their task index in put order
         for it in list(p._queue.queue):
@@ -216,6 +223,9 @@ class PoolRun(object):
                 method.cell["tid"] = idx
                 self.tasks.append({"cell": method.cell, "future": future, "kind": method.kind, "begins": 0, "ends": 0,
                                    "item": it, "outcome": method.outcome})
+
+    def _on_step(self, ctl, cthread, label, fired):
+        self._scan_queue()
         lab = label + ("!" if fired and not label.endswith("!") else "")
         if self._is_model_step(cthread.name, lab):
             self.steps.append((self._thr(cthread.name), bool(fired), self._snapshot() if self.want_snap else None, lab))
@@ -274,6 +284,9 @@ class PoolRun(object):
                         ctl.record(("enq-full", ci))
                         continue
                     mine.append(body)
+                    if body.cell["tid"] is None:
+                        # (a pool whose enqueue() returns in the very step of its put: nobody else ran since)
+                        self._scan_queue()
                     ctl.record(("enq-ret", ci, body.cell["tid"], enq_call))
                 elif op[0] == "join":
                     ctl.record(("join-call", ci, len(self.tasks)))
